@@ -37,7 +37,25 @@ def _is_expression_with_error(nodes):
 
     if nodes[0].type not in _VARIABLE_EXCTRACTABLE:
         return False, 'Cannot extract a "%s"' % nodes[0].type
+    if _is_assignment_target(nodes[0]):
+        return False, 'Cannot extract the target of an assignment'
     return True, ''
+
+
+def _is_assignment_target(node):
+    """
+    Is the node (part of) the left hand side of an assignment like
+    ``foo[0] = bar.baz = 3``?
+    """
+    while node.parent is not None \
+            and node.parent.type in ('testlist_star_expr', 'atom', 'testlist_comp',
+                                     'exprlist', 'star_expr'):
+        node = node.parent
+    expr_stmt = node.parent
+    if expr_stmt is None or expr_stmt.type != 'expr_stmt':
+        return False
+    index = expr_stmt.children.index(node)
+    return any(c == '=' for c in expr_stmt.children[index + 1:])
 
 
 def _find_nodes(module_node, pos, until_pos):
@@ -225,6 +243,11 @@ def extract_function(inference_state, path, module_context, name, pos, until_pos
         parent = nodes[0].parent
         if parent.type == 'simple_stmt' and len(parent.children) == 2:
             nodes = [parent]
+    if not is_expression and any(
+            n.parent.type not in _DEFINITION_SCOPES + ('simple_stmt',) for n in nodes):
+        # Neither an expression nor whole statements, e.g. just the name that
+        # an assignment defines or a keyword in the middle of a statement.
+        raise RefactoringError(message)
     context = module_context.create_context(nodes[0])
     is_bound_method = context.is_bound_method()
     params, return_variables = list(_find_inputs_and_outputs(module_context, context, nodes))
